@@ -94,6 +94,12 @@ using verif_atomic = vmt::atomic<T>;
 using vmt::world;
 namespace qd = quill::detail;
 
+// the lock's flag member is reached by the name the extraction found in the current core/Spinlock.h (the build passes
+// -DH_SPIN_FLAG=<name>, tools/extractors/spin.py): a rename of the private member changes nothing here
+#ifndef H_SPIN_FLAG
+#define H_SPIN_FLAG _flag
+#endif
+
 struct Rng
 {
   uint64_t s;
@@ -201,7 +207,7 @@ struct Runner
       ctx.push_back(p);
       ctr_loc.push_back(p->_failure_counter.id());
     }
-    lock_loc = mgr._spinlock._flag.id();
+    lock_loc = mgr._spinlock.H_SPIN_FLAG.id();
     flag_loc = mgr._new_thread_context_flag.id();
     if (cs.proto == 2)
     {
